@@ -75,6 +75,15 @@ type Case struct {
 	// are those of this case.
 	Before   []*Case `json:"before,omitempty"`
 	RelNonce bool    `json:"relnonce,omitempty"` // Nonce is an offset to the sender's nonce in the state when the message is applied
+	// Between: what happens to the StateDB between two messages of a block (after Finalize): "" = nothing
+	// (one StateDB, as inside Process), "reload" = Commit(true) and a fresh StateDB opened at the new root
+	// (the next block / a restart: nothing cached survives), "copy" = the block goes on on StateDB.Copy()
+	// (the worker's pending-block copies) and the original must stay as it was.
+	Between string `json:"between,omitempty"`
+	// Loc: the zone this node runs ([region, zone]; empty = [0,0]).  Addresses in a case are written for
+	// zone [0,0] (first byte 0x00 = this zone, 0x01 = another zone) and translated by addrBytes into the
+	// zone of the case: every case can be run at every location.
+	Loc []int `json:"loc,omitempty"`
 }
 
 func bi(s string) *big.Int {
@@ -93,7 +102,25 @@ func addrBytes(h string) []byte {
 	if err != nil || len(b) != 20 {
 		panic("bad address " + h)
 	}
+	// canonical form -> the location the harness currently runs (setLoc): first byte 0x00 = an address of
+	// this zone (also the zero address, the precompiles, the lockup contract), 0x01 = an address of another
+	// zone.  Addresses computed from real ones (CREATE2) already carry the real prefix and pass unchanged
+	// (no location with prefix 0x00 / 0x01 other than [0,0] is ever used).
+	switch b[0] {
+	case 0x00:
+		b[0] = loc.BytePrefix()
+	case 0x01:
+		b[0] = therePrefix()
+	}
 	return b
+}
+
+// therePrefix: first byte of the addresses of "another zone" for the current location
+func therePrefix() byte {
+	if loc.BytePrefix() == 0x00 {
+		return 0x01
+	}
+	return 0x00 // seen from any other zone, [0,0] is the other zone (another region for [1,x] / [2,x])
 }
 
 // ---------- assembler ----------
